@@ -456,6 +456,12 @@ class Ops:
 
     def compare_data(self, a, op, b, node, env):
         """==/!= between sets, lists, shapes..."""
+        # a dict keys view is set-like: keys() == {...} compares as sets
+        if isinstance(a, ListV) and a.kind == "keys" and isinstance(b, (SetV, ListV)) and (isinstance(b, SetV) or b.kind == "keys"):
+            a = self.to_set(a, node)
+            b = self.to_set(b, node) if isinstance(b, ListV) else b
+        elif isinstance(b, ListV) and b.kind == "keys" and isinstance(a, SetV):
+            b = self.to_set(b, node)
         if isinstance(a, SetV) and isinstance(b, SetV) and isinstance(op, (ast.Eq, ast.NotEq)):
             eq = self.sets_equal(a, b)
             self.ev("set_compare", node, left=repr(a)[:120], right=repr(b)[:120], left_atoms=sorted(a.atoms), right_atoms=sorted(b.atoms), equal=eq)
